@@ -61,7 +61,8 @@ Theorem tt_validated (cs : list tensor) shp rk :
   exists t, tt_to_tensor Op cs = Ok t /\ shape t = shp /\
     forall idx, inb shp idx -> get zero t idx = chain F Op cs idx 0 0.
 Proof.
-  intros Hv Hpos Hp. apply validate_tt_iff in Hv. destruct Hv as (Hne & rs & -> & Hc).
+  intros Hv Hpos Hp. unfold tt_to_tensor, tt_to_tensor_from. rewrite Hv. cbn [rbind].
+  apply validate_tt_iff in Hv. destruct Hv as (Hne & rs & -> & Hc).
   apply (tt_to_tensor_spec F Op Rth cs shp Hne); [|exact Hp]. now apply chain_shapes_pos with (rs := rs).
 Qed.
 
@@ -71,7 +72,7 @@ Theorem tr_validated (cs : list tensor) shp rk :
   exists t, tr_to_tensor Op cs = Ok t /\ shape t = shp /\
     forall idx, inb shp idx -> get zero t idx = fsumn Op (hd 0 rk) (fun a => chain F Op cs idx a a).
 Proof.
-  intros Hv Hpos Hp. apply validate_tr_iff in Hv. destruct Hv as (Hlen & rs & r0 & -> & Hc).
+  intros Hv Hpos Hp. pose proof Hv as Hv'. apply validate_tr_iff in Hv. destruct Hv as (Hlen & rs & r0 & -> & Hc).
   pose proof (chain_shapes_hd _ _ _ _ _ _ Hc) as Hh. rewrite Hh.
   pose proof (chain_shapes_pos _ _ _ _ _ _ Hc Hpos) as Htc.
   destruct cs as [|fa rest]; [simpl in Hlen; lia|].
@@ -79,6 +80,7 @@ Proof.
   change (fa :: mid ++ [fl]) with ((fa :: mid) ++ [fl]) in Htc.
   destruct (tt_cores_snoc_inv F _ _ _ _ _ Htc) as (ns' & nL & rL & -> & Hc' & Hfl & Hr0).
   destruct ns' as [|n0 nsm]; [inversion Hc'|].
+  unfold tr_to_tensor. rewrite Hv'. cbn [rbind].
   exact (tr_to_tensor_spec F Op Rth fa mid fl n0 nsm nL r0 rL Hc' Hfl Hr0 Hp).
 Qed.
 
